@@ -16,8 +16,10 @@
 (*   TranslateType(ext) = LookupByValue(EncodeTypeValue(ext))              *)
 (*   DecodeTypeValue    = a per-process program (postfix walk of the       *)
 (*                        serialized term) whose every instruction is one  *)
-(*                        Lookup* call; a NameDef rebinds the CONTEXT-     *)
-(*                        GLOBAL typedefs and a later NameRef reads it.    *)
+(*                        Lookup* call; a NameDef rebinds the context-     *)
+(*                        global typedefs (LookupTypeNamed) AND the        *)
+(*                        decoder's own map; a NameRef reads only the      *)
+(*                        decoder's own map (scoped to the type value).    *)
 (*   ReuseBuffer(b)     = environment: the caller overwrites a byte slice  *)
 (*                        it passed to LookupByValue earlier.              *)
 (*                                                                         *)
@@ -31,9 +33,10 @@
 (* names -> length-prefixed, "p1" -> int64, "p2" -> string, "def" -> 37,   *)
 (* "ref" -> 38 ...).                                                       *)
 (*                                                                         *)
-(* Confirmed defects of the real code are modelled faithfully behind a     *)
-(* ghost variable `taint` (DESIGN 2.4); invariants are guarded by the      *)
-(* taints that can break them and hold unconditionally everywhere else.    *)
+(* The defects this spec once carried behind a taint variable are repaired  *)
+(* in the repository (LookupByValue a51bcc8de, decoder-local typedefs       *)
+(* e3c8e5c33, CompareTypes a432f329d); the transcription follows the        *)
+(* repaired code and every invariant is unconditional.                      *)
 (***************************************************************************)
 EXTENDS Integers, Sequences, SequencesExt, FiniteSets, FiniteSetsExt, TLC, Json
 
@@ -88,12 +91,14 @@ CmpNames(a, b, i) == IF i > Len(a) THEN 0
 
 \* a.ID() == b.ID() holds exactly when both have the same underlying type
 \* object; inside a canonical context that is equality of the ordered terms.
-\* NOTE the transcribed weakness: two different named types with the same
-\* name and the same underlying type (x=(y=int64) vs x=int64) compare as 0.
+\* Named types sharing an underlying type are ordered by name, then by the
+\* type the name is bound to.
 RECURSIVE CmpT(_, _), CmpSeqT(_, _, _)
 CmpT(a, b) ==
   IF UnderT(a) = UnderT(b) THEN
-       IF a.k = "named" THEN (IF b.k = "named" THEN Sgn(Rank(a.s[1]) - Rank(b.s[1])) ELSE 1)
+       IF a.k = "named" THEN (IF b.k = "named"
+                               THEN (IF a.s[1] # b.s[1] THEN Sgn(Rank(a.s[1]) - Rank(b.s[1])) ELSE CmpT(a.c[1], b.c[1]))
+                               ELSE 1)
        ELSE IF b.k = "named" THEN -1 ELSE 0
   ELSE IF KindRank(a) # KindRank(b) THEN Sgn(KindRank(a) - KindRank(b))
   ELSE LET ua == UnderT(a)  ub == UnderT(b) IN
@@ -176,17 +181,17 @@ VARIABLES
   prog,     \* per process: remaining instructions of its current call
   stk,      \* per process: operand stack of type ids (Go: locals of the decoder recursion)
   cur,      \* per process: the call in progress (or NoCall)
-  ldefs,    \* ghost, per process: name -> id bound by this decode itself (what a scoped decoder would use)
-  racy,     \* ghost, per process: the current call read a typedef another call rebound meanwhile
+  ldefs,    \* per process: the decoder's own typedefs map (name -> id bound by this type value)
+  racy,     \* ghost, per process: a reference of the current call was resolved while the context-global
+            \* binding of the name differed (another call had rebound it): non-vacuity of the schedules
   ncalls,   \* calls started so far (also numbers the caller buffers)
   live,     \* caller buffers that were passed to LookupByValue and not yet overwritten
-  taint,    \* ghost: names of the modelled defects that have fired
   aliases,  \* ghost: keys of toType that are other encodings of their type (entered by LookupByValue)
   turn,     \* 0, or the process that must move next (Gran = "hook")
   h         \* history (hidden by VIEW): the events so far
 
-vars == <<cx, prog, stk, cur, ldefs, racy, ncalls, live, taint, aliases, turn, h>>
-View == <<cx, prog, stk, cur, ldefs, racy, ncalls, live, taint, aliases, turn>>
+vars == <<cx, prog, stk, cur, ldefs, racy, ncalls, live, aliases, turn, h>>
+View == <<cx, prog, stk, cur, ldefs, racy, ncalls, live, aliases, turn>>
 
 NoCall == [m |-> "none", ot |-> NoT, nm |-> "", b |-> 0]
 EmptyCx == [byID |-> <<>>, toType |-> <<>>, toValue |-> <<>>, typedefs |-> [x \in TypeNames |-> 0]]
@@ -337,7 +342,7 @@ Targets == CASE Family = "level1" -> Level1
              [] Family = "cmp"    -> CmpFam
              [] Family = "conc"   -> ConcFam
              [] Family = "conc-small" -> ConcSmall
-             [] Family = "all"    -> Level1 \cup NamedFam \cup NestFam \cup TieFam \cup CmpFam
+             [] Family = "all"    -> Level1 \cup NamedFam \cup NestFam \cup TieFam \cup CmpFam \cup ConcFam
 
 Calls == [m : Methods \ {"tdef", "reset"}, ot : Targets, nm : {""}]
          \cup (IF "tdef" \in Methods THEN [m : {"tdef"}, ot : {NoT}, nm : TypeNames] ELSE {})
@@ -393,22 +398,19 @@ Exec(c, pr0, st0, ld, decoding, wasRacy) ==
       ins == sk.pr[1]
       rest == Tail(sk.pr)
       st == sk.st
-      base == [c |-> c, st |-> st, pr |-> rest, rb |-> <<>>, ld |-> ld, race |-> FALSE, t |-> {}, ak |-> {}] IN
+      base == [c |-> c, st |-> st, pr |-> rest, rb |-> <<>>, ld |-> ld, race |-> FALSE, ak |-> {}] IN
   CASE ins.op \in {"rec", "arr", "set", "err", "map", "union", "enum", "named"} ->
          LET args == SubSeq(st, Len(st) - ins.n + 1, Len(st))
              kids == IF ins.op = "union" THEN SortIds(c, args) ELSE args
-             tie  == ins.op = "union" /\ \E i, j \in 1..Len(args) :
-                        i < j /\ CmpT(OS(c.byID, args[i]), OS(c.byID, args[j])) = 0
              r == LookupNode(c, [k |-> ins.op, s |-> ins.s, c |-> kids]) IN
          IF r.id = 0 THEN [base EXCEPT !.st = <<0>>, !.pr = <<>>]   \* error: the whole call fails (nil, nil)
          ELSE
          [base EXCEPT !.c = r.c, !.st = Append(SubSeq(st, 1, Len(st) - ins.n), r.id),
-                      !.ld = IF ins.op = "named" /\ decoding THEN [ld EXCEPT ![ins.s[1]] = r.id] ELSE ld,
-                      !.t = IF tie THEN {"tie"} ELSE {}]
-    [] ins.op = "ref" ->                                  \* c.LookupTypeDef(name)
-         LET id == c.typedefs[ins.s[1]] IN
-         [base EXCEPT !.st = Append(st, id), !.race = (id # ld[ins.s[1]]),
-                      !.t = IF id # ld[ins.s[1]] THEN {"race"} ELSE {}]
+                      !.ld = IF ins.op = "named" /\ decoding THEN [ld EXCEPT ![ins.s[1]] = r.id] ELSE ld]
+    [] ins.op = "ref" ->                                  \* (*typedefs)[name]: the decoder's own map
+         LET id == ld[ins.s[1]] IN
+         IF id = 0 THEN [base EXCEPT !.st = <<0>>, !.pr = <<>>]   \* reference without a definition: nil, nil
+         ELSE [base EXCEPT !.st = Append(st, id), !.race = (c.typedefs[ins.s[1]] # id)]
     [] ins.op = "tdef" -> [base EXCEPT !.st = Append(st, c.typedefs[ins.s[1]])]
     [] ins.op = "reset" -> [base EXCEPT !.c = EmptyCx, !.st = <<0>>]        \* Context.Reset
     [] ins.op = "tval" -> [base EXCEPT !.st = Append(st, ins.n), !.rb = c.toValue[ins.n].b]
@@ -424,17 +426,14 @@ Exec(c, pr0, st0, ld, decoding, wasRacy) ==
          \* caller's slice is never retained.
          [base EXCEPT !.c = [c EXCEPT !.toValue = IF typ \in DOMAIN @ THEN @ ELSE (typ :> [b |-> ins.s, o |-> 0]) @@ @,
                                        !.toType = (ins.s :> typ) @@ @],
-                      !.ak = IF TVid(c.byID, typ) # ins.s THEN {ins.s} ELSE {},
-                      \* a call that lost the typedef race caches its wrong result under the
-                      \* key of the type it was asked for: the cache is poisoned for good
-                      !.t = IF wasRacy THEN {"poison"} ELSE {}]
+                      !.ak = IF TVid(c.byID, typ) # ins.s THEN {ins.s} ELSE {}]
 
 \* A whole call without preemption (Gran = "call").
-RECURSIVE RunAll(_, _, _, _, _, _, _, _)
-RunAll(c, pr, st, ld, decoding, race, t, ak) ==
+RECURSIVE RunAll(_, _, _, _, _, _, _)
+RunAll(c, pr, st, ld, decoding, race, ak) ==
   LET r == Exec(c, pr, st, ld, decoding, race) IN
-  IF r.pr = <<>> THEN [r EXCEPT !.race = race \/ r.race, !.t = t \cup r.t, !.ak = ak \cup r.ak]
-  ELSE RunAll(r.c, r.pr, r.st, r.ld, decoding, race \/ r.race, t \cup r.t, ak \cup r.ak)
+  IF r.pr = <<>> THEN [r EXCEPT !.race = race \/ r.race, !.ak = ak \cup r.ak]
+  ELSE RunAll(r.c, r.pr, r.st, r.ld, decoding, race \/ r.race, ak \cup r.ak)
 
 \* --------------------------------------------------------------- behaviour
 Snap(c) == [nodes |-> c.byID,
@@ -442,7 +441,7 @@ Snap(c) == [nodes |-> c.byID,
             own  |-> Eager([i \in 1..Len(c.byID) |-> c.toValue[i + NP].o]),
             defs |-> c.typedefs]
 
-Emit(hh, c, tt) == CASE PrintMode = "edge" -> PrintT(ToJson([h |-> hh, cx |-> Snap(c), taint |-> tt]))
+Emit(hh, c) == CASE PrintMode = "edge" -> PrintT(ToJson([h |-> hh, cx |-> Snap(c)]))
                      [] OTHER -> TRUE
 
 Init ==
@@ -451,7 +450,7 @@ Init ==
   /\ cur = [p \in Procs |-> NoCall]
   /\ ldefs = [p \in Procs |-> [x \in TypeNames |-> 0]]
   /\ racy = [p \in Procs |-> FALSE]
-  /\ ncalls = 0 /\ live = {} /\ taint = {} /\ aliases = {} /\ turn = 0 /\ h = <<>>
+  /\ ncalls = 0 /\ live = {} /\ aliases = {} /\ turn = 0 /\ h = <<>>
 
 Idle(p) == cur[p] = NoCall
 UsesBuf(call) == call.m \in {"value", "raw"}
@@ -461,16 +460,15 @@ Call(p, call, nrm) ==
   /\ Gran = "call" /\ ncalls < MaxCalls
   /\ CallEnabled(nrm, call)
   /\ LET b == IF UsesBuf(call) THEN FreeBuf(cx, live, {}) ELSE 0
-         r == RunAll(cx, CallProg(nrm, call, b), <<>>, [x \in TypeNames |-> 0], call.m # "fields", FALSE, {}, {})
+         r == RunAll(cx, CallProg(nrm, call, b), <<>>, [x \in TypeNames |-> 0], call.m # "fields", FALSE, {})
          ev == [e |-> "call", p |-> p, m |-> call.m, ot |-> call.ot, nm |-> call.nm, b |-> b,
                 fin |-> TRUE, r |-> r.st[Len(r.st)], rb |-> r.rb, racy |-> r.race] IN
      /\ cx' = r.c
      /\ ncalls' = ncalls + 1
      /\ live' = IF UsesBuf(call) THEN live \cup {b} ELSE live
-     /\ taint' = taint \cup r.t
      /\ aliases' = IF call.m = "reset" THEN {} ELSE aliases \cup r.ak
      /\ h' = Append(h, ev)
-     /\ Emit(h', cx', taint')
+     /\ Emit(h', cx')
   /\ UNCHANGED <<prog, stk, cur, ldefs, racy, turn>>
 
 \* Invocation: no shared state is touched.
@@ -486,7 +484,7 @@ Start(p, call, nrm) ==
   /\ ldefs' = [ldefs EXCEPT ![p] = [x \in TypeNames |-> 0]]
   /\ racy' = [racy EXCEPT ![p] = FALSE]
   /\ turn' = IF Gran = "hook" THEN p ELSE 0
-  /\ UNCHANGED <<cx, taint, aliases, live>>
+  /\ UNCHANGED <<cx, aliases, live>>
 
 \* One mutex section of process p.
 Step(p) ==
@@ -504,12 +502,11 @@ Step(p) ==
      /\ cur' = [cur EXCEPT ![p] = IF fin THEN NoCall ELSE @]
      /\ ldefs' = [ldefs EXCEPT ![p] = r.ld]
      /\ racy' = [racy EXCEPT ![p] = IF fin THEN FALSE ELSE @ \/ r.race]
-     /\ taint' = taint \cup r.t
      /\ aliases' = IF cur[p].m = "reset" THEN {} ELSE aliases \cup r.ak
      /\ turn' = IF yield THEN 0 ELSE p
      /\ h' = Append(h, ev)
      \* the real state can be observed (and compared) only where the call is parked or done
-     /\ IF yield THEN Emit(h', cx', taint') ELSE TRUE
+     /\ IF yield THEN Emit(h', cx') ELSE TRUE
      \* the caller may reuse its buffer only after the call has returned
      /\ live' = IF fin /\ UsesBuf(cur[p]) THEN live \cup {cur[p].b} ELSE live
   /\ UNCHANGED ncalls
@@ -523,8 +520,8 @@ ReuseBuffer(b) ==
   /\ LET hit == {i \in Ids(cx) : cx.toValue[i].o = b} IN
      /\ cx' = [cx EXCEPT !.toValue = [i \in DOMAIN @ |-> IF i \in hit THEN [@[i] EXCEPT !.b = <<"garbage">>] ELSE @[i]]]
   /\ h' = Append(h, [e |-> "reuse", b |-> b, fin |-> FALSE])
-  /\ Emit(h', cx', taint)
-  /\ UNCHANGED <<prog, stk, cur, ldefs, racy, ncalls, turn, taint, aliases>>
+  /\ Emit(h', cx')
+  /\ UNCHANGED <<prog, stk, cur, ldefs, racy, ncalls, turn, aliases>>
 
 Next == LET nrm == NormIds(cx) IN
         \/ \E p \in Procs, call \in Calls : Call(p, call, nrm) \/ Start(p, call, nrm)
@@ -542,16 +539,13 @@ WellFormed ==
   /\ \A n \in TypeNames : cx.typedefs[n] = 0 \/
         (cx.typedefs[n] \in Ids(cx) /\ cx.byID[cx.typedefs[n] - NP].k = "named" /\ cx.byID[cx.typedefs[n] - NP].s = <<n>>)
 
-\* Same structure <=> same object (same id).  The only modelled way to break
-\* it is the CompareTypes tie.
+\* Same structure <=> same object (same id).
 Canonical ==
-  "tie" \notin taint =>
-     \A i, j \in Ids(cx) : i # j => Norm(OS(cx.byID, i)) # Norm(OS(cx.byID, j))
+  \A i, j \in Ids(cx) : i # j => Norm(OS(cx.byID, i)) # Norm(OS(cx.byID, j))
 
 \* A union is identified by its member set, whatever order it was listed in.
 UnionOrderInsensitive ==
-  "tie" \notin taint =>
-     \A i, j \in Ids(cx) :
+  \A i, j \in Ids(cx) :
         (cx.byID[i - NP].k = "union" /\ cx.byID[j - NP].k = "union"
            /\ ToSet(cx.byID[i - NP].c) = ToSet(cx.byID[j - NP].c)) => i = j
 
@@ -564,15 +558,14 @@ ValuePure == \A i \in Ids(cx) : cx.toValue[i].o = 0 /\ cx.toValue[i].b = TVid(cx
 \* or an alias entered by LookupByValue for another encoding of it (whose
 \* decoding to that type is what DecodeCorrect checked when it was entered).
 KeysDenote ==
-  "poison" \notin taint =>
-     \A key \in DOMAIN cx.toType : key \in aliases \/ TVid(cx.byID, cx.toType[key]) = key
+  \A key \in DOMAIN cx.toType : key \in aliases \/ TVid(cx.byID, cx.toType[key]) = key
 
 \* RoundTrip / DecodeCorrect: every finished call that denotes a type returned
 \* a type of exactly that structure -- by fields, by value, by translation and
 \* by bare decoding, in any context state ("anywhere"), unless that very call
 \* read a typedef rebound by a concurrent call (the modelled race).
 Denotes(ev) ==
-  \/ ~ev.fin \/ ev.m \in {"tval", "tdef", "reset"} \/ ev.racy \/ "poison" \in taint
+  \/ ~ev.fin \/ ev.m \in {"tval", "tdef", "reset"}
   \/ (ev.r = 0 /\ HasDup(ev.ot.s))
   \/ (ev.r \in Ids(cx) /\ Norm(OS(cx.byID, ev.r)) = Norm(ev.ot))
 \* byID only grows, so it suffices to look at the event just appended.
@@ -585,5 +578,5 @@ TvalCorrect ==
 
 \* Complete behaviours for PrintMode = "final".
 Quiescent == ncalls = MaxCalls /\ \A p \in Procs : Idle(p)
-FinalPrint == (PrintMode = "final" /\ Quiescent) => PrintT(ToJson([h |-> h, cx |-> Snap(cx), taint |-> taint]))
+FinalPrint == (PrintMode = "final" /\ Quiescent) => PrintT(ToJson([h |-> h, cx |-> Snap(cx)]))
 =============================================================================
